@@ -337,7 +337,7 @@ def run(ctx):
     from checks import kfhist
     hstats = {}
     if not ctx.replay or hist_replay:
-        hists = [hist_replay] if hist_replay else [kfhist.gen_history(ctx.gen("kfh2"), i, ctx.tier, want_meas=(i % 2 == 0)) for i in range(ctx.n(20, 100))]
+        hists = [hist_replay] if hist_replay else [kfhist.gen_history(ctx.gen("kfh2"), i, ctx.tier, want_meas=(i % 2 == 0)) for i in range(ctx.n(20, 60))]
         hp, hc, hstats = kfhist.run_histories(ctx, binary, hists, "C02")
         prop_bad += hp
         corr_bad += hc
